@@ -141,7 +141,7 @@ impl<'a> LspServer<'a> {
             }
             Err(req) => req,
         };
-        let _request = match Self::cast_request::<request::SemanticTokensFullRequest>(req) {
+        let request = match Self::cast_request::<request::SemanticTokensFullRequest>(req) {
             Ok(params) => {
                 let uri = params.text_document.uri;
                 let token_result = self.project.tokenize(&uri);
@@ -167,6 +167,14 @@ impl<'a> LspServer<'a> {
             }
             Err(req) => req,
         };
+
+        // Every request must be answered; this one is for a method that is not implemented.
+        let response = lsp_server::Response::new_err(
+            req_id,
+            lsp_server::ErrorCode::MethodNotFound as i32,
+            format!("Method {} is not implemented", request.method),
+        );
+        self.sender.send(Message::Response(response)).unwrap();
         ""
     }
 
